@@ -173,7 +173,11 @@ func flush(c *vf.Ctx, t *tally) {
 func run(c *vf.Ctx) {
 	c.Rule("(a) for each of the 8 negotiated name-list fields: all ordered (client list, server list) pairs of lists of length 0..3 over {known1, known2, unknown} (40 lists incl. empty and duplicates, 1600 pairs; nil lists too), other fields agreeing, both roles; " +
 		"(b) cipher x MAC interaction per direction: all pairs of cipher lists of length <=2 [thorough <=3] over {aes128-gcm, chacha20-poly1305, aes128-ctr, unknown} x all pairs of MAC lists of length <=2 over {hmac-sha2-256, hmac-sha1, unknown}, with 4 settings of the opposite direction; " +
-		"(c) every cipher name the package knows, with disjoint MAC lists; (d) two fields failing at once, languages and first_kex_packet_follows varied (must not matter). " +
+		"(c) every cipher name the package knows, with disjoint MAC lists; (d) two fields failing at once, languages and first_kex_packet_follows varied (must not matter); " +
+		"(e) both directions of the cipher / MAC / compression pair varied at once and independently on both sides: all quadruples of lists of length <=2 over {known1, known2, unknown} (13^4 per pair); " +
+		"(f) long lists: n client x m server names, n,m in {1,2,15..17,31..33,63..65,127..129,255..257,1000} (thorough + 511..513, 4095..4097, 65535..65537), the only common name at every combination of first/middle/last position (plus none, plus a later second common name), full n x m square for kex and host key, diagonal and short lists for the other fields; " +
+		"(g) near-miss names (prefix, extension, other case, surrounding blank, empty name, trailing comma, 64/65-byte names) for every field and near misses of the three AEAD cipher names (must need a MAC); " +
+		"(e)-(g) also demand that the name-lists passed in (incl. spare capacity) are unchanged afterwards. " +
 		"Each pair is evaluated as client and as server: both fail or both agree (client.Write==server.Read, client.Read==server.Write) and equal the RFC 4253 7.1 model. non-trivial = distinct (field, client list, server list) whose model outcome is success with client and server orders differing, or failure")
 	c.Assume("algorithm names are compared as opaque strings; the kex/host-key compatibility refinement of RFC 4253 7.1 is outside the property statement")
 
@@ -330,6 +334,9 @@ func run(c *vf.Ctx) {
 			c.Nontrivial(fmt.Sprintf("d/%d/%d", a, b))
 		}
 	}
+	flush(c, t)
+	t = &tally{out: map[string]int{}}
+	hardened(c)
 	// findCommon directly (also used for the public key algorithm choice of client auth)
 	ts := tuples([]string{"a", "b", "c"}, 3)
 	for _, x := range ts {
